@@ -124,3 +124,19 @@ theorem C07_source_overlaps_is_the_models_ov (q qs qe b1 b1s b2 b2e : Nat) :
   gen_overlaps_eq_ov q qs qe b1 b1s b2 b2e
 
 end RT
+
+namespace ZL
+
+/-- **At most ten automatic levels, whatever `max_zooms` says (D24).** The number of candidate resolutions both writers take —
+    regenerated from the source — is `min max_zooms 10`, the factor between candidates is 4: the candidates are
+    `autoSizes initial (min max_zooms 10)`, at most ten, strictly increasing. As found, `--nzooms 12` listed twelve levels
+    in a directory of ten and the last two were overwritten by the total summary. -/
+theorem C07_source_automatic_levels_at_most_ten (initial maxZooms : Nat) (hi : 0 < initial) :
+    Gen.zl_count_single maxZooms Gen.MAX_ZOOM_LEVELS = min maxZooms 10 ∧ Gen.zl_count_two maxZooms Gen.MAX_ZOOM_LEVELS = min maxZooms 10 ∧
+    Gen.zl_factor = 4 ∧ (autoSizes initial (min maxZooms 10)).length ≤ 10 ∧ StrictInc (autoSizes initial (min maxZooms 10)) := by
+  obtain ⟨h1, h2, h3, _, _⟩ := gen_auto_zoom_count maxZooms
+  refine ⟨h1, h2, h3, ?_, autoSizes_strict initial hi _⟩
+  rw [autoSizes_length]; omega
+
+end ZL
+
